@@ -219,7 +219,19 @@ U9 = universe("U9", 4, [
 ], base=["(g (f 1 2))", "(g (p 1 2))", "(g %s)" % HV12, "(h %s c)" % HV12],
    note="two-step union-find chains of dead ids, then the leader shrinks / gets a symmetry")
 
-ALL = {"U9": U9, "U8": U8, "U7": U7, "U1": U1, "U2": U2, "U3": U3, "U4": U4, "U5": U5, "U6": U6}
+# U10 "four slots": an equation whose right side mentions its left side with ROTATED arguments, f4(1,2,3,4) = g(f4(2,3,4,1)),
+# plus an argument symmetry asserted afterwards: the swap of the first two arguments travels through the self-reference to
+# every neighbouring pair (the class ends with all 24 symmetries), each step found by an e-node that refers to its own class.
+F4 = lambda a, b, c, d: "(f4 %d %d %d %d)" % (a, b, c, d)
+U10 = universe("U10", 5, [
+    (F4(1, 2, 3, 4), "(g (f4 2 3 4 1))"),
+    (F4(1, 2, 3, 4), F4(2, 1, 3, 4)),
+    (F4(1, 2, 3, 4), F4(2, 3, 4, 1)),
+    (F4(1, 2, 3, 4), F4(1, 2, 3, 5)),
+    (F4(1, 2, 3, 4), "(g (f4 1 2 3 4))"),
+], note="4-slot class with a rotating self-reference; 4 names per equation, pool 5")
+
+ALL = {"U10": U10, "U9": U9, "U8": U8, "U7": U7, "U1": U1, "U2": U2, "U3": U3, "U4": U4, "U5": U5, "U6": U6}
 
 if __name__ == "__main__":
     out = os.path.dirname(os.path.abspath(__file__))
